@@ -4,7 +4,7 @@
    here are the mechanisms the property rests on, for every input. *)
 From Coq Require Import List NArith Bool.
 From Verif Require Import Base.Res Base.Text Gen.GenTokens Model.Lexer Model.ExprParser Proofs.LexerTile Proofs.RespellProofs Proofs.ExprParserProofs Proofs.ExprInstance.
-From Verif Require Model.StParser Model.DeclParser Model.StInstance Proofs.StExprProofs Proofs.StStmtProofs Proofs.StInstanceProofs Proofs.DeclProofs Proofs.DeclInstanceProofs Proofs.LibProofs.
+From Verif Require Model.StParser Model.DeclParser Model.StInstance Proofs.StExprProofs Proofs.StStmtProofs Proofs.StInstanceProofs Proofs.DeclProofs Proofs.TypeProofs Proofs.DeclInstanceProofs Proofs.LibProofs.
 Import ListNotations.
 
 (* every token of token.rs whose spelling contains a letter is matched case-insensitively (table regenerated each run) *)
@@ -98,3 +98,11 @@ Theorem C08_library_respelling : forall (l l' : list LibProofs.swu) wend wend',
   map LibProofs.erase_wu l = map LibProofs.erase_wu l' ->
   StInstance.parse_lib_tokens (LibProofs.flat_lib l ++ wend) = StInstance.parse_lib_tokens (LibProofs.flat_lib l' ++ wend').
 Proof. exact LibProofs.parse_lib_respelled. Qed.
+
+(* two well-formed spellings of a library with TYPE blocks that denote the same elements are read alike *)
+Theorem C08_types_respelling : forall (l l' : list LibProofs.swe) wend wend',
+  Forall LibProofs.wf_we l -> StExprProofs.all_triv token StInstance.tok_class wend ->
+  Forall LibProofs.wf_we l' -> StExprProofs.all_triv token StInstance.tok_class wend' ->
+  map LibProofs.erase_we l = map LibProofs.erase_we l' ->
+  StInstance.parse_lib2_tokens (LibProofs.flat_lib2 l ++ wend) = StInstance.parse_lib2_tokens (LibProofs.flat_lib2 l' ++ wend').
+Proof. exact LibProofs.parse_lib2_respelled. Qed.
